@@ -635,9 +635,9 @@ class RelativeJSONPointer:
                 )
             parts[-1] = f"#{parts[-1]}"
 
-        return JSONPointer.from_parts(
-            parts, unicode_escape=unicode_escape, uri_decode=uri_decode
-        )
+        # These are parts of pointers that have been parsed already. Decoding
+        # them again would change tokens that contain a backslash or a percent sign.
+        return JSONPointer.from_parts(parts, unicode_escape=False, uri_decode=False)
 
 
 def resolve(
